@@ -15,9 +15,10 @@ open Nervus Nervus.PropVal Nervus.WalRec Nervus.WalFrame Nervus.Driver Nervus.Dr
 /-- one side (model or ideal) of the simulation -/
 structure Side where
   file : Bytes := []
-  handle : Bool := false
-  /-- engine open: `next_txid` -/
-  eng : Option Nat := none
+  /-- `Wal` handle open: its `tail_checked` flag -/
+  handle : Option Bool := none
+  /-- engine open: `next_txid` and the `tail_checked` flag of the engine's `Wal` -/
+  eng : Option (Nat × Bool) := none
   /-- nodes in the persisted id map (`idmap.next_internal_id()`) -/
   nodes : Nat := 0
   deriving Inhabited
@@ -41,6 +42,7 @@ def showAErr : AErr → String
   | .enc .tooLarge => "toolarge"
   | .enc .panic => "PANIC"
   | .tooLarge => "toolarge"
+  | .scan e => showRErr e
 
 def showTxs (txs : List Tx) : String :=
   let ids := if txs.isEmpty then "-" else ",".intercalate (txs.map fun t => toString t.txid)
@@ -69,29 +71,32 @@ def damage (ws : List String) (f : Bytes) : Option Bytes :=
   | _ => none
 
 /-- append a list of records through `Wal::append`; stops at the first failure (the earlier frames stay) -/
-def appendAll (cfg : WalFrame.Cfg) (f : Bytes) : List Rec → Bytes × Option AErr
-  | [] => (f, none)
+def appendAll (cfg : WalFrame.Cfg) (h : Handle) : List Rec → Handle × Option AErr
+  | [] => (h, none)
   | r :: rs =>
-    match append cfg f r with
-    | .ok f' => appendAll cfg f' rs
-    | .error e => (f, some e)
+    match append cfg h r with
+    | .ok h' => appendAll cfg h' rs
+    | .error e => (h, some e)
 
 /-- one operation on one side; returns the new side and the output line -/
 def run (cfg : WalFrame.Cfg) (ideal : Bool) (sd : Side) (ws : List String) : Side × String :=
   match ws with
   | ["wopen"] =>
-    match walOpen cfg sd.file with
-    | .ok f => ({ sd with file := f, handle := true }, s!"ok | {f.length}")
-    | .error e => (sd, "err " ++ showOErr e)
+    let h := walOpen sd.file
+    ({ sd with handle := some h.tailChecked }, s!"ok | {sd.file.length}")
   | ["wappend", tok] =>
-    match parseRec tok with
-    | none => (sd, "bad-op")
-    | some r =>
-      if !sd.handle then (sd, "bad-op") else
-      match append cfg sd.file r with
-      | .ok f => ({ sd with file := f }, s!"ok | {sd.file.length}")
+    match parseRec tok, sd.handle with
+    | some r, some tc =>
+      match append cfg ⟨sd.file, tc⟩ r with
+      | .ok h =>
+        -- `offset = file.metadata()?.len()` is taken after the tail check
+        let flen := match encodeBody cfg.codec r with
+          | .ok b => 8 + b.length
+          | .error _ => 0
+        ({ sd with file := h.file, handle := some h.tailChecked }, s!"ok | {h.file.length - flen}")
       | .error e => (sd, "err | " ++ showAErr e)
-  | ["wclose"] => ({ sd with handle := false }, "ok")
+    | _, _ => (sd, "bad-op")
+  | ["wclose"] => ({ sd with handle := none }, "ok")
   | ["read"] =>
     if ideal then
       (sd, showTxs (specTxs (completeFrames cfg.codec cfg.maxLen sd.file).1))
@@ -102,33 +107,30 @@ def run (cfg : WalFrame.Cfg) (ideal : Bool) (sd : Side) (ws : List String) : Sid
   | ["wlen"] => (sd, s!"ok | {sd.file.length}:" ++ hexOfBytes (beBytes 4 (crc32 sd.file)))
   | ["eopen"] =>
     match engineOpen cfg sd.file with
-    | .ok (f, txs) => ({ sd with file := f, eng := some (max (maxTxid txs + 1) 1) }, "ok")
+    | .ok (h, txs) => ({ sd with eng := some (max (maxTxid txs + 1) 1, h.tailChecked) }, "ok")
     | .error e =>
       if ideal then
         -- the ideal log opens whatever the tail is; protocol junk inside complete frames is skipped
-        let f := match walOpen cfg sd.file with
-          | .ok f => f
-          | .error _ => sd.file
-        let txs := specTxs (completeFrames cfg.codec cfg.maxLen f).1
-        ({ sd with file := f, eng := some (max (maxTxid txs + 1) 1) }, "ok")
+        let txs := specTxs (completeFrames cfg.codec cfg.maxLen sd.file).1
+        ({ sd with eng := some (max (maxTxid txs + 1) 1, false) }, "ok")
       else (sd, "err " ++ showOErr e)
   | ["eclose"] => ({ sd with eng := none }, "ok")
   | "ecommit" :: ext :: rest =>
     match sd.eng, ext.toNat? with
-    | some txid, some ext =>
+    | some (txid, tc), some ext =>
       let prop : List Rec := match rest with
         | [size] => match size.toNat? with
           | some n => [.setNodeProperty sd.nodes [0x6b] (.str (List.replicate n 0x61))]
           | none => []
         | _ => []
       let recs : List Rec := [.beginTx txid, .createNode ext 0 sd.nodes] ++ prop ++ [.commitTx txid]
-      match appendAll cfg sd.file recs with
-      | (f, none) => ({ sd with file := f, eng := some (txid + 2), nodes := sd.nodes + 1 }, s!"ok | {sd.nodes}")
-      | (f, some e) => ({ sd with file := f, eng := some (txid + 1) }, "err | " ++ showAErr e)
+      match appendAll cfg ⟨sd.file, tc⟩ recs with
+      | (h, none) => ({ sd with file := h.file, eng := some (txid + 2, h.tailChecked), nodes := sd.nodes + 1 }, s!"ok | {sd.nodes}")
+      | (h, some e) => ({ sd with file := h.file, eng := some (txid + 1, h.tailChecked) }, "err | " ++ showAErr e)
     | _, _ => (sd, "err | noengine")
   | _ =>
     match damage ws sd.file with
-    | some f => if sd.handle || sd.eng.isSome then (sd, "bad-op") else ({ sd with file := f }, "ok")
+    | some f => if sd.handle.isSome || sd.eng.isSome then (sd, "bad-op") else ({ sd with file := f }, "ok")
     | none => (sd, "bad-op")
 
 def obsOf (line : String) : String := ((line.splitOn " | ").headD "").trimAscii.toString
